@@ -676,3 +676,215 @@ theorem finalSort_perm (l1 l2 : List (Key × Rw)) (hp : l1.Perm l2) :
   · exact (List.mergeSort_perm _ _).trans (hp.trans (List.mergeSort_perm _ _).symm)
 
 end Sched
+
+namespace Sched
+
+/-! ## duplicate elimination -/
+
+theorem mem_dupScan : ∀ (tab : Tab) (seen : List (List Rw)) (k : Key), k ∈ dupScan tab seen →
+    ∃ l1 rws l2, tab = l1 ++ (k, rws) :: l2 ∧ (rws ∈ seen ∨ ∃ q ∈ l1, q.2 = rws) := by
+  intro tab
+  induction tab with
+  | nil => intro seen k h; simp [dupScan] at h
+  | cons p rest ih =>
+    intro seen k h
+    obtain ⟨k0, r0⟩ := p
+    simp only [dupScan] at h
+    split at h
+    · rename_i hin
+      rcases List.mem_cons.mp h with rfl | h'
+      · exact ⟨[], r0, rest, rfl, Or.inl hin⟩
+      · obtain ⟨l1, rws, l2, heq, hor⟩ := ih seen k h'
+        refine ⟨(k0, r0) :: l1, rws, l2, by rw [heq]; rfl, ?_⟩
+        rcases hor with h1 | ⟨q, hq, hq2⟩
+        · exact Or.inl h1
+        · exact Or.inr ⟨q, List.mem_cons_of_mem _ hq, hq2⟩
+    · obtain ⟨l1, rws, l2, heq, hor⟩ := ih (r0 :: seen) k h
+      refine ⟨(k0, r0) :: l1, rws, l2, by rw [heq]; rfl, ?_⟩
+      rcases hor with h1 | ⟨q, hq, hq2⟩
+      · rcases List.mem_cons.mp h1 with rfl | h1'
+        · exact Or.inr ⟨(k0, rws), by simp, rfl⟩
+        · exact Or.inl h1'
+      · exact Or.inr ⟨q, List.mem_cons_of_mem _ hq, hq2⟩
+
+/-- stronger invariant on the state: surviving earlier transactions are in strictly ascending key order, have
+smaller group numbers, and carry exactly the rewrites yielded under their key so far (`pre`) -/
+structure StInv (st : SchedState) (g : Nat) (pre : List (Key × Rw)) : Prop where
+  lt : DoneLt st g
+  sorted : st.done.Pairwise (fun a b => a.1.lt b.1 = true)
+  tuples : ∀ p ∈ st.done, p.2 = rwsOf pre p.1 ∧ p.1 ∈ pre.map (·.1)
+  preLt : ∀ x ∈ pre, x.1.g < g
+
+theorem rwsOf_append_of_g_ne (l1 l2 : List (Key × Rw)) (k : Key) (h : ∀ x ∈ l2, x.1 ≠ k) :
+    rwsOf (l1 ++ l2) k = rwsOf l1 k := by
+  simp only [rwsOf, List.filterMap_append]
+  have : List.filterMap (fun (x : Key × Rw) => if x.1 = k then some x.2 else none) l2 = [] := by
+    rw [List.filterMap_eq_nil_iff]
+    intro x hx
+    simp [h x hx]
+  rw [this, List.append_nil]
+
+theorem rwsOf_append_of_g_ne_left (l1 l2 : List (Key × Rw)) (k : Key) (h : ∀ x ∈ l1, x.1 ≠ k) :
+    rwsOf (l1 ++ l2) k = rwsOf l2 k := by
+  simp only [rwsOf, List.filterMap_append]
+  have : List.filterMap (fun (x : Key × Rw) => if x.1 = k then some x.2 else none) l1 = [] := by
+    rw [List.filterMap_eq_nil_iff]
+    intro x hx
+    simp [h x hx]
+  rw [this, List.nil_append]
+
+/-- the table of the current group, sorted: strictly ascending keys of group `g` -/
+theorem sortedCur_props (g : Nat) (ys : List Yield) (c : Int) :
+    (sortKeys (buildTab (fill g ys c).1)).Pairwise (fun a b => a.1.lt b.1 = true) ∧
+    ∀ p ∈ sortKeys (buildTab (fill g ys c).1), p.1.g = g ∧ p.2 = rwsOf (fill g ys c).1 p.1 ∧
+      p.1 ∈ (fill g ys c).1.map (·.1) := by
+  constructor
+  · have hle : (sortKeys (buildTab (fill g ys c).1)).Pairwise (fun a b => a.1.le b.1 = true) := by
+      unfold sortKeys
+      exact List.pairwise_mergeSort (le := fun (a b : Key × List Rw) => a.1.le b.1)
+        (fun a b c h1 h2 => Key.le_trans' a.1 b.1 c.1 h1 h2) (fun a b => Key.le_total' a.1 b.1) _
+    have hnd : keysNodup (sortKeys (buildTab (fill g ys c).1)) := by
+      unfold keysNodup sortKeys
+      exact ((List.mergeSort_perm _ _).map _).nodup_iff.mpr (buildTab_keysNodup _)
+    unfold keysNodup at hnd
+    rw [List.Nodup, List.pairwise_map] at hnd
+    exact (hle.and hnd).imp (fun ⟨h1, h2⟩ => Key.lt_of_le_ne h1 h2)
+  · intro p hp
+    simp only [sortKeys, List.mem_mergeSort] at hp
+    obtain ⟨hk, hr⟩ := mem_buildTab hp
+    obtain ⟨x, hx, hxk⟩ := List.mem_map.mp hk
+    exact ⟨by rw [← hxk]; exact fill_key_g g ys c x hx, hr, hk⟩
+
+theorem all_sorted {st : SchedState} {g : Nat} {pre : List (Key × Rw)} (hi : StInv st g pre) (ys : List Yield) :
+    (st.done ++ sortKeys (buildTab (fill g ys st.ctr).1)).Pairwise (fun a b => a.1.lt b.1 = true) := by
+  rw [List.pairwise_append]
+  refine ⟨hi.sorted, (sortedCur_props g ys st.ctr).1, ?_⟩
+  intro a ha b hb
+  have h1 := hi.lt a ha
+  have h2 := ((sortedCur_props g ys st.ctr).2 b hb).1
+  exact Key.lt_of_g_lt (by omega)
+
+theorem groupStep_stInv (ign : Rng → Bool) {st : SchedState} {g : Nat} {pre : List (Key × Rw)}
+    (hi : StInv st g pre) (ys : List Yield) :
+    StInv (groupStep ign st g ys) (g + 1) (pre ++ (fill g ys st.ctr).1) := by
+  have hcur := sortedCur_props g ys st.ctr
+  refine ⟨groupStep_doneLt ign st g ys hi.lt, ?_, ?_, ?_⟩
+  · show ((st.done ++ sortKeys (buildTab (fill g ys st.ctr).1)).filter _).Pairwise _
+    exact (all_sorted hi ys).sublist List.filter_sublist
+  · intro p hp
+    have hp' : p ∈ st.done ++ sortKeys (buildTab (fill g ys st.ctr).1) := (List.mem_filter.mp hp).1
+    rcases List.mem_append.mp hp' with hd | hc
+    · obtain ⟨h1, h2⟩ := hi.tuples p hd
+      have hne : ∀ x ∈ (fill g ys st.ctr).1, x.1 ≠ p.1 := by
+        intro x hx hxe
+        have := fill_key_g g ys st.ctr x hx
+        have := hi.lt p hd
+        rw [hxe] at *; omega
+      refine ⟨by rw [rwsOf_append_of_g_ne _ _ _ hne]; exact h1, ?_⟩
+      rw [List.map_append]; exact List.mem_append_left _ h2
+    · obtain ⟨hg, hr, hk⟩ := hcur.2 p hc
+      have hne : ∀ x ∈ pre, x.1 ≠ p.1 := by
+        intro x hx hxe
+        have := hi.preLt x hx
+        rw [hxe] at this; omega
+      refine ⟨by rw [rwsOf_append_of_g_ne_left _ _ _ hne]; exact hr, ?_⟩
+      rw [List.map_append]; exact List.mem_append_right _ hk
+  · intro x hx
+    rcases List.mem_append.mp hx with h | h
+    · exact Nat.lt_succ_of_lt (hi.preLt x h)
+    · rw [fill_key_g g ys st.ctr x h]; exact Nat.lt_succ_self g
+
+/-- a key of the current group that the accept loop does not visit was eliminated as a duplicate of an entry
+with a strictly smaller key -/
+theorem not_visited_dup {st : SchedState} {g : Nat} {pre : List (Key × Rw)} (hi : StInv st g pre)
+    (ys : List Yield) (k : Key) (hk : k ∈ (fill g ys st.ctr).1.map (·.1))
+    (hnv : k ∉ (visited st g ys).map (·.1)) :
+    ∃ q ∈ st.done ++ sortKeys (buildTab (fill g ys st.ctr).1), q.1.lt k = true ∧
+      q.2 = rwsOf (fill g ys st.ctr).1 k := by
+  -- the entry of `k` in the sorted table
+  have hkb : (k, rwsOf (fill g ys st.ctr).1 k) ∈ sortKeys (buildTab (fill g ys st.ctr).1) := by
+    simp only [sortKeys, List.mem_mergeSort, buildTab]
+    exact List.mem_map.mpr ⟨k, mem_dedup.mpr hk, rfl⟩
+  have hkg : k.g = g := ((sortedCur_props g ys st.ctr).2 _ hkb).1
+  have hall := all_sorted hi ys
+  -- not visited ⇒ flagged by the duplicate scan
+  have hdup : k ∈ dupScan (st.done ++ sortKeys (buildTab (fill g ys st.ctr).1)) [] := by
+    apply Classical.byContradiction
+    intro hnot
+    apply hnv
+    refine List.mem_map.mpr ⟨(k, rwsOf (fill g ys st.ctr).1 k), ?_, rfl⟩
+    simp only [visited, List.mem_filter, List.mem_append, beq_iff_eq]
+    refine ⟨⟨Or.inr hkb, ?_⟩, hkg⟩
+    simpa using hnot
+  obtain ⟨l1, rws, l2, heq, hor⟩ := mem_dupScan _ [] k hdup
+  rcases hor with h | ⟨q, hq, hq2⟩
+  · cases h
+  · -- keys are strictly ascending, so the entry of `k` is unique and `q` is strictly smaller
+    rw [heq] at hall
+    have hsplit := List.pairwise_append.mp hall
+    have hqlt : q.1.lt k = true := hsplit.2.2 q hq (k, rws) (by simp)
+    have hmem : (k, rws) ∈ st.done ++ sortKeys (buildTab (fill g ys st.ctr).1) := by rw [heq]; simp
+    have hrws : rws = rwsOf (fill g ys st.ctr).1 k := by
+      rcases List.mem_append.mp hmem with hd | hc
+      · have := hi.lt _ hd; simp only at this; omega
+      · exact ((sortedCur_props g ys st.ctr).2 _ hc).2.1
+    refine ⟨q, ?_, hqlt, by rw [hq2, hrws]⟩
+    rw [heq]; exact List.mem_append_left _ hq
+
+end Sched
+
+namespace Sched
+
+theorem dup_reason_from (ign : Rng → Bool) : ∀ (groups : List (List Yield)) (st : SchedState) (g : Nat)
+    (pre : List (Key × Rw)), StInv st g pre →
+    ∀ k, k ∈ (yieldedFrom st.ctr g groups).map (·.1) → k ∉ (visitedAll ign st g groups).map (·.1) →
+    ∃ k', k'.lt k = true ∧ k' ∈ (pre ++ yieldedFrom st.ctr g groups).map (·.1) ∧
+      rwsOf (pre ++ yieldedFrom st.ctr g groups) k' = rwsOf (pre ++ yieldedFrom st.ctr g groups) k := by
+  intro groups
+  induction groups with
+  | nil => intro st g pre _ k hk; simp [yieldedFrom] at hk
+  | cons ys rest ih =>
+    intro st g pre hi k hk hnv
+    have hi' := groupStep_stInv ign hi ys
+    have hlater : ∀ x ∈ yieldedFrom (fill g ys st.ctr).2 (g + 1) rest, g + 1 ≤ x.1.g := by
+      have := (visitedAll_props ign rest (groupStep ign st g ys) (g + 1) hi'.lt).2.2
+      rw [groupStep_ctr] at this; exact this
+    simp only [yieldedFrom, List.map_append, List.mem_append] at hk
+    simp only [visitedAll, List.map_append, List.mem_append, not_or] at hnv
+    simp only [yieldedFrom]
+    rcases hk with hk | hk
+    · -- a key of this group
+      obtain ⟨q, hq, hqlt, hq2⟩ := not_visited_dup hi ys k hk hnv.1
+      obtain ⟨x, hx, hxk⟩ := List.mem_map.mp hk
+      have hkg : k.g = g := by rw [← hxk]; exact fill_key_g g ys st.ctr x hx
+      have hk_tuple : rwsOf (pre ++ ((fill g ys st.ctr).1 ++ yieldedFrom (fill g ys st.ctr).2 (g + 1) rest)) k =
+          rwsOf (fill g ys st.ctr).1 k := by
+        rw [rwsOf_append_of_g_ne_left _ _ _ (fun y hy hye => by have := hi.preLt y hy; rw [hye] at this; omega)]
+        rw [rwsOf_append_of_g_ne _ _ _ (fun y hy hye => by have := hlater y hy; rw [hye] at this; omega)]
+      refine ⟨q.1, hqlt, ?_, ?_⟩
+      · rcases List.mem_append.mp hq with hd | hc
+        · rw [List.map_append]; exact List.mem_append_left _ (hi.tuples q hd).2
+        · rw [List.map_append, List.map_append]
+          exact List.mem_append_right _ (List.mem_append_left _ ((sortedCur_props g ys st.ctr).2 q hc).2.2)
+      · rw [hk_tuple, ← hq2]
+        rcases List.mem_append.mp hq with hd | hc
+        · have hqg := hi.lt q hd
+          rw [rwsOf_append_of_g_ne _ _ _ (fun y hy hye => by
+            rcases List.mem_append.mp hy with h | h
+            · have := fill_key_g g ys st.ctr y h; rw [hye] at this; omega
+            · have := hlater y h; rw [hye] at this; omega)]
+          exact ((hi.tuples q hd).1).symm
+        · obtain ⟨hqg, hqr, _⟩ := (sortedCur_props g ys st.ctr).2 q hc
+          rw [rwsOf_append_of_g_ne_left _ _ _ (fun y hy hye => by have := hi.preLt y hy; rw [hye] at this; omega)]
+          rw [rwsOf_append_of_g_ne _ _ _ (fun y hy hye => by have := hlater y hy; rw [hye] at this; omega)]
+          exact hqr.symm
+    · -- a key of a later group
+      have := ih (groupStep ign st g ys) (g + 1) (pre ++ (fill g ys st.ctr).1) hi' k
+        (by rw [groupStep_ctr]; exact hk) hnv.2
+      rw [groupStep_ctr] at this
+      simpa [List.append_assoc] using this
+
+theorem stInv_init : StInv initState 0 [] :=
+  ⟨doneLt_init, by simp [initState], by intro p hp; simp [initState] at hp, by intro x hx; cases hx⟩
+
+end Sched
